@@ -138,6 +138,14 @@ func (t *tracer) origins(v ssa.Value) []Origin {
 					return
 				}
 				if al, ok := x.X.(*ssa.Alloc); ok {
+					// a local variable cell: the stores that reach this read (flow-sensitive
+					// when only the declaring function assigns it; otherwise every store)
+					if vals := reachingStores(al, x); len(vals) > 0 {
+						for _, sv := range vals {
+							walk(sv)
+						}
+						return
+					}
 					n := 0
 					for _, ref := range *al.Referrers() {
 						if st, ok := ref.(*ssa.Store); ok && st.Addr == al {
@@ -370,4 +378,54 @@ func dominatesInstr(a, b ssa.Instruction) bool {
 	}
 	r, _ := reach(entrySite(a.Parent()), isInstr(b), newCuts().addInstr(a))
 	return !r
+}
+
+// reachingStores: the values stored into the local cell al that can reach the
+// read `at` (memfield.go's reaching definitions on the whole variable).  nil
+// when a closure assigns the cell too (then order is not visible here).
+func reachingStores(al *ssa.Alloc, at ssa.Instruction) []ssa.Value {
+	if at.Parent() != al.Parent() {
+		return nil
+	}
+	for _, ref := range *al.Referrers() {
+		if mc, ok := ref.(*ssa.MakeClosure); ok {
+			cf := mc.Fn.(*ssa.Function)
+			for i, b := range mc.Bindings {
+				if b != ssa.Value(al) {
+					continue
+				}
+				stores := false
+				fv := cf.FreeVars[i]
+				withClosures(cf, func(f *ssa.Function) {
+					allInstrs(f, func(in ssa.Instruction) {
+						if st, ok := in.(*ssa.Store); ok && st.Addr == ssa.Value(fv) {
+							stores = true
+						}
+					})
+				})
+				if stores {
+					return nil
+				}
+			}
+		}
+	}
+	mf := newMemField(al, -1)
+	var out []ssa.Value
+	seen := map[*memDef]bool{}
+	var collect func(d *memDef)
+	collect = func(d *memDef) {
+		if d == nil || seen[d] || d.entry {
+			return
+		}
+		seen[d] = true
+		if d.store != nil {
+			out = append(out, d.store.(*ssa.Store).Val)
+			return
+		}
+		for _, p := range d.preds {
+			collect(p)
+		}
+	}
+	collect(mf.At(at))
+	return out
 }
